@@ -151,21 +151,24 @@ def project_doc(doc):
     }
 
 
-def collapse(recs, group):
-    """grouped executions: a run of `group` identical documents is one record of the specification; a remainder shows as a
-    record with a negated id (which no invariant accepts)."""
-    if group == 1:
-        return recs
+def project_run(raw, group, proj=None):
+    """raw documents -> records of the specification.  Consecutive equal raw documents are projected once.  Grouped executions: a run
+    of `group` identical documents is ONE record of the specification; a remainder shows as a record with a negated id (which no
+    invariant accepts)."""
+    proj = proj or project_doc
     out = []
     i = 0
-    while i < len(recs):
-        j = i
-        while j < len(recs) and recs[j] == recs[i]:
+    n = len(raw)
+    while i < n:
+        r0 = raw[i]
+        j = i + 1
+        while j < n and raw[j] == r0:
             j += 1
-        n = j - i
-        out += [recs[i]] * (n // group)
-        if n % group:
-            out.append(dict(recs[i], id=-abs(recs[i]["id"]) - 1))
+        rec = proj(r0)
+        cnt = j - i
+        out += [rec] * (cnt // group)
+        if cnt % group:
+            out.append(dict(rec, id=-abs(rec["id"]) - 1))
         i = j
     return out
 
@@ -273,6 +276,7 @@ class FakeEs:
         self.template = None
         self.indices_set = set()
         self.docs = []  # [record id, _id] per document of the index, in order of arrival
+        self.by_id = {}
 
     def options(self, **kwargs):
         return self
@@ -282,11 +286,13 @@ class FakeEs:
 
     def index_doc(self, rid, doc_id):
         if doc_id is not None:
-            for d in self.docs:
-                if d[1] == doc_id:
-                    d[0] = rid  # same _id: the document is overwritten
-                    return 200
-        self.docs.append([rid, doc_id])
+            if doc_id in self.by_id:
+                self.by_id[doc_id][0] = rid  # same _id: the document is overwritten
+                return 200
+            self.by_id[doc_id] = entry = [rid, doc_id]
+            self.docs.append(entry)
+            return 201
+        self.docs.append([rid, None])
         return 201
 
     def bulk(self, *args, operations=None, index=None, **kwargs):
@@ -351,7 +357,7 @@ class Session:
     def _docs_of(self, s):
         st = self.stores[s]
         docs = (st._docs if self.types[s] == "es" else st.docs) or []  # pylint: disable=protected-access
-        return collapse([project_doc(d) for d in docs], self.group)
+        return project_run(docs, self.group)
 
     def _store(self, s):
         from esrally import metrics
@@ -391,7 +397,7 @@ class Session:
             if m is None:
                 wire.append({"none": True, "docs": []})
             else:
-                wire.append({"none": False, "docs": collapse([project_doc(d) for d in pickle.loads(zlib.decompress(m))], self.group)})
+                wire.append({"none": False, "docs": project_run(pickle.loads(zlib.decompress(m)), self.group)})
         return {
             "store": {s: self._store(s) for s in ("drv", "rc")},
             "wire": wire,
@@ -449,16 +455,22 @@ class Session:
     def on_bulk(self, operations, index):
         import elasticsearch
 
-        docs = []
-        for i in range(0, len(operations) - 1, 2):
-            action = json.loads(operations[i])
-            body = json.loads(operations[i + 1])
-            docs.append((action.get("index", action.get("create", {})).get("_id"), body))
-        recs = collapse([project_doc(b) for _, b in docs], self.group)
+        pairs = [(operations[i], operations[i + 1]) for i in range(0, len(operations) - 1, 2)]
+        parsed = {}
+
+        def parse(pair):
+            if pair not in parsed:
+                action = json.loads(pair[0])
+                rec = project_doc(json.loads(pair[1]))
+                parsed[pair] = (action.get("index", action.get("create", {})).get("_id"), rec)
+            return parsed[pair]
+
+        recs = project_run(pairs, self.group, proj=lambda pr: parse(pr)[1])
+        docs = [parse(pr) for pr in pairs]  # (_id, record) per document
         if self.cur is None:
             self.stray += 1
-            for doc_id, b in docs:
-                self.fake.index_doc(project_doc(b)["id"], doc_id)
+            for doc_id, rec in docs:
+                self.fake.index_doc(rec["id"], doc_id)
             return _response({"errors": False, "took": 1, "items": [{"index": {"_id": "x", "status": 201}} for _ in docs]})
         cur = self.cur
         cur["n"] += 1
@@ -485,11 +497,11 @@ class Session:
                 bad_docs.update(range((p - 1) * self.group, min(p * self.group, len(docs))))
         status = ([429, 503] if k == "itemT" else [400, 409])[v % 2]
         items = []
-        for j, (doc_id, b) in enumerate(docs):
+        for j, (doc_id, rec) in enumerate(docs):
             if j in bad_docs:
                 items.append({"index": {"_id": doc_id or "auto", "status": status, "error": {"type": "verif_item_%d" % status, "reason": "scripted"}}})
             else:
-                st = self.fake.index_doc(project_doc(b)["id"], doc_id)
+                st = self.fake.index_doc(rec["id"], doc_id)
                 items.append({"index": {"_id": doc_id or "auto", "status": st, "result": "created" if st == 201 else "updated"}})
         if k == "reqTdone":
             raise elasticsearch.ConnectionTimeout("verif_late_timeout_%d" % n)
